@@ -20,6 +20,13 @@ def _one_shot(ctx, f, value):
         cs = ctx.r.site_of.get(id(value))
         if cs is not None and cs.targets and cs.kind in ("func", "self", "static", "typed", "super") and all(t.is_generator for t in cs.targets):
             return "the generator %s" % cs.targets[0].short
+        # a function that hands out a generator expression (or map/filter/zip/...) it built: just as one-shot as a generator
+        if cs is not None and cs.targets and cs.kind in ("func", "self", "static", "typed", "super"):
+            for t in cs.targets:
+                rets = [x.value for x in walk_own(t.node) if isinstance(x, ast.Return) and x.value is not None]
+                if any(isinstance(v, ast.GeneratorExp) or (isinstance(v, ast.Call) and isinstance(v.func, ast.Name) and v.func.id in ONE_SHOT_BUILTINS
+                                                            and ctx.p.resolve_name(t.module, v.func.id) is None) for v in rets):
+                    return "what %s returns (a generator expression)" % t.short
     return None
 
 
